@@ -25,7 +25,7 @@ def gen_cases(tier, seed):
     cases = []
     for k in range(n):
         cases.append({"epochs": int(rng.integers(1, 5)) if k % 13 != 6 else 0, "batches": int(rng.integers(1, 7)), "bs": int(rng.integers(2, 6)),
-                      "val": bool(k % 2), "val_batches": int(rng.integers(1, 4)), "evaluator": bool((k // 2) % 2 or k % 3 == 0 or k % 4 == 1),
+                      "val": bool(k % 2), "val_batches": int(rng.integers(1, 4)), "evaluator": bool((k // 2) % 2 or k % 3 == 0 or k % 4 == 1 or k % 9 == 4),
                       "mode": ["multi-class", "binary", "categorical"][k % 3], "opt": ["SGD", "Adam"][(k // 3) % 2],
                       "callbacks": bool(k % 4 == 1), "extra_metric": bool(k % 5 == 2), "test": bool(k % 3 == 1), "leftover": int(rng.integers(0, 2)),
                       "extra_param": bool(k % 4 == 2), "premode": [None, "sub-eval", "all-eval", None][k % 4],
@@ -33,7 +33,7 @@ def gen_cases(tier, seed):
                       "nested": bool(k % 3 == 0), "stale_grads": bool(k % 4 == 3),
                       "refit": bool(k % 5 == 0), "raising_callback": bool(k % 4 == 1), "binary_logits": bool(k % 6 == 1),
                       "soft_targets": bool(k % 2 == 0), "bn_tracking_off": bool(k % 7 == 2), "test_under_no_grad": bool(k % 2 == 1),
-                      "no_accuracy": bool(k % 11 == 7), "zero_loss_batches": bool(k % 12 in (5, 11)), "custom_layer": bool(k % 5 == 3), "frozen_block": bool(k % 7 == 5),   # (zero-loss batches: categorical mode, no extra loss term)
+                      "no_accuracy": bool(k % 11 == 7), "zero_loss_batches": bool(k % 12 in (5, 11)), "custom_layer": bool(k % 5 == 3), "frozen_block": bool(k % 7 == 5), "mutating_step_callback": bool(k % 9 == 4 and k % 11 != 7),   # (zero-loss batches: categorical mode, no extra loss term)
                       "seed": int(rng.integers(2 ** 31))})
     return cases
 
@@ -221,6 +221,17 @@ def run_case(ns, ctx, c):
         if c.get("no_accuracy"):
             # only the caller's metrics: accuracy switched off, a per-step and a per-epoch callback (reach monitor: never driven)
             ev = Evaluator(epoch_callback=lambda yt, yp: [("f1", np.float64(0.25))], step_callback=lambda yt, yp: [("n", np.float64(len(yt)))], accuracy=False, mode=mode)
+        elif c.get("mutating_step_callback"):
+            # a per-step metric callback that post-processes the arrays it is handed in place (merging classes, thresholding): the epoch metrics are
+            # computed from what the model predicted, not from what the callback left behind
+            def step_cb(yt, yp):
+                n_ = len(yt)
+                try:
+                    yt[...] = 0; yp[...] = 1
+                except Exception:
+                    pass
+                return [("n", np.float64(n_))]
+            ev = Evaluator(epoch_callback=extra, step_callback=step_cb, accuracy=True, mode=mode)
         else:
             ev = Evaluator(epoch_callback=extra, step_callback=None, accuracy=True, mode=mode)
     if c.get("stale_grads"):
